@@ -48,7 +48,38 @@ def sweeps(out, sc, tier, label):
     return [p]
 
 
+def apalache_inductive(out, sc, tier):
+    """Unbounded check of the writer's invariants with Apalache (BUF = 8192 as in the code, any output length, any number of
+    runs): Init => IndInv, IndInv /\\ Next => IndInv', IndInv => each invariant.  An extra key in the evidence, not a proof
+    claim; a stall or tool failure is reported there and does not fail the check (the TLC-bounded result stands)."""
+    import shutil
+    import time
+    from ..core import SPEC
+    obligations = [("Init => IndInv", ["--init=Init", "--inv=IndInv", "--length=0"]),
+                   ("IndInv /\\ Next => IndInv'", ["--init=IndInit", "--inv=IndInv", "--length=1"])]
+    if tier == "thorough":
+        obligations += [(f"IndInv => {i}", ["--init=IndInit", f"--inv={i}", "--length=0"]) for i in
+                        ("Inv_InBounds", "Inv_Ownership", "Inv_NoLeakAtIdle", "Inv_NoBadFree", "Inv_ResultComplete",
+                         "Inv_MemoryErrorOnlyOnFault")]
+    res = []
+    for name, args in obligations:
+        t0 = time.time()
+        try:
+            r = subprocess.run(["apalache-mc", "check", *args, f"--out-dir={sc.work / 'apa'}", str(SPEC / "MC_WriterInd.tla")],
+                               capture_output=True, text=True, timeout=300, cwd=str(sc.work))
+            status = "discharged" if "EXITCODE: OK" in r.stdout else ("counterexample" if "EXITCODE: ERROR (12)" in r.stdout else "tool-failure")
+        except (subprocess.TimeoutExpired, FileNotFoundError) as e:
+            status = "stalled:" + type(e).__name__
+        res.append({"obligation": name, "status": status, "wall_s": round(time.time() - t0, 1)})
+        if status == "counterexample":
+            out.violations.append({"source": "apalache", "model": "MC_WriterInd", "invariant": name, "trace": r.stdout[-2000:]})
+    shutil.rmtree(sc.work / "apa", ignore_errors=True)
+    out.extra["apalache_inductive_writer"] = {"BUF": 8192, "obligations": res,
+                                             "note": "inductive invariant IndInv of spec/Writer.tla, unbounded output length and runs"}
+
+
 def run(out, sc, tier, seed):
+    apalache_inductive(out, sc, tier)
     run_model(out, sc, "MC_Split", ["Inv_NoCrash"], ["MaxLen = %d" % (4 if tier == "quick" else 5), "Alphabet <- DelimAlphabet"],
               label="MC_Split[no crash]")
     run_model(out, sc, "MC_Split", ["Inv_NoCrash"], ["MaxLen = 4", "Alphabet <- DelimAlphabet"], ["Dev_EmptyBracketIndex <- On"],
